@@ -134,7 +134,7 @@ func judgeC08b(t *testing.T, sc C08bScript) (key, msg string) {
 	}
 	// expected deliveries: the valid binary messages (>= 2 bytes) sent before the first input that must end the connection
 	var want [][]byte
-	ended := false
+	ended, garbage := false, false
 	for _, f := range sc.Frames {
 		if ended {
 			break
@@ -147,15 +147,23 @@ func judgeC08b(t *testing.T, sc C08bScript) (key, msg string) {
 			} else {
 				ended = true
 			}
-		case "text", "close", "raw":
-			if f.Kind != "raw" || len(d) > 0 {
-				ended = true
+		case "text", "close":
+			ended = true
+		case "raw":
+			if len(d) > 0 {
+				// garbage in the byte stream. Together with the bytes that follow it may happen to be a
+				// valid frame (a binary message made of the next frame's header, a ping, ...): from here
+				// on only the safety clauses apply (no short message, no panic, no wedge, no leak)
+				ended, garbage = true, true
 			}
 		}
 	}
 	for i, m := range res.Delivered {
 		if len(m) < 2 {
 			return "C08/ws-short-message-delivered", fmt.Sprintf("a message of %d bytes was handed to the SHIP layer", len(m))
+		}
+		if i >= len(want) && garbage {
+			continue
 		}
 		if i >= len(want) || !bytes.Equal(m, want[i]) {
 			return "C08/ws-invalid-delivery", fmt.Sprintf("delivery #%d (% x...) is not the %d-th valid binary message the peer sent before the first invalid input (%d valid)", i, m[:min(8, len(m))], i, len(want))
@@ -164,10 +172,10 @@ func judgeC08b(t *testing.T, sc C08bScript) (key, msg string) {
 	if len(res.Delivered) < len(want) {
 		return "C08/ws-valid-message-lost", fmt.Sprintf("%d valid binary messages were sent before the first invalid input, %d were delivered", len(want), len(res.Delivered))
 	}
-	if ended && !res.Closed {
+	if ended && !garbage && !res.Closed {
 		return "C08/ws-not-closed-after-invalid-input", "invalid input (text frame, short message, close frame or garbage) did not end the connection"
 	}
-	if ended && res.Errors == 0 {
+	if ended && !garbage && res.Errors == 0 {
 		return "C08/ws-no-error-report", "invalid input ended the connection but no connection error was reported"
 	}
 	if err != nil {
